@@ -425,6 +425,14 @@ def family_names():
         b.add(["mutate", [["a", fn("add", C("a"), lit(1))]]], ["mutate", [["a", fn("add", C("a"), lit(1))]]])
         return old, "a"
 
+    def dup_twice_all(b):
+        # three columns called a are needed above the subquery: both hidden ones are read again
+        old1 = b.here("a")
+        b.add(["mutate", [["a", fn("add", C("a"), lit(10))]]])
+        old2 = b.here("a")
+        b.add(["mutate", [["a", fn("add", C("a"), lit(100))]]])
+        return fn("add", old1, old2), "a"
+
     def force_slice(b):
         b.add(["arrange", [o(C("id"))]], ["slice_head", 6, 0])
 
@@ -435,7 +443,7 @@ def family_names():
         return None          # placeholder: summarize would drop the hidden column
 
     out = []
-    for dup, force, reader in itertools.product((dup_overwrite_src, dup_overwrite_computed, dup_swap, dup_twice),
+    for dup, force, reader in itertools.product((dup_overwrite_src, dup_overwrite_computed, dup_swap, dup_twice, dup_twice_all),
                                                 (force_slice, force_window), ("verb", "mutate", "summarize", "arrange")):
         b = B()
         old, new = dup(b)
